@@ -103,7 +103,11 @@ def load_known():
 
 def finish(ctx, level="other", extra_cov=None, trusted=None, checker_cmd=None):
     """write evidence, print verdict lines, return exit code"""
-    os.makedirs(os.path.join(EVID, "violations"), exist_ok=True)
+    evid = EVID
+    if os.path.realpath(ctx.repo) != "/repo":
+        # runs on scratch copies (controls, mutants) must not overwrite the evidence of the real tree
+        evid = os.path.join(V, ".cache", "scratch-evidence", "%d" % os.getpid())
+    os.makedirs(os.path.join(evid, "violations"), exist_ok=True)
     opens, _fixed = load_known()
     real = []
     known = []
@@ -163,13 +167,13 @@ def finish(ctx, level="other", extra_cov=None, trusted=None, checker_cmd=None):
         "violations": len(real),
         "known_findings": [v["key"] for v in known],
     }
-    with open(os.path.join(EVID, ctx.prop + ".json"), "w") as f:
+    with open(os.path.join(evid, ctx.prop + ".json"), "w") as f:
         json.dump(ev, f, indent=1)
     for v in known:
         print("KNOWN-FINDING: property=%s %s — %s" % (ctx.prop, v["key"], opens[v["key"]][1]))
     for v in real:
         h = hashlib.sha1(v["key"].encode()).hexdigest()[:10]
-        path = os.path.join(EVID, "violations", "%s-%s.json" % (ctx.prop, h))
+        path = os.path.join(evid, "violations", "%s-%s.json" % (ctx.prop, h))
         with open(path, "w") as f:
             json.dump(v, f, indent=1)
         print("  rule %s instance %s" % (v["rule"], v["instance"]))
